@@ -162,10 +162,59 @@ def run_job(job):
     return out
 
 
-def run_jobs(jobs, procs=None):
-    procs = procs or min(14, max(1, (os.cpu_count() or 2) - 2))
-    if len(jobs) == 1 or procs == 1:
-        return [run_job(j) for j in jobs]
+JOB_BUDGET_S = int(os.environ.get('PYVC_JOB_BUDGET_S', '900'))
+
+
+def _job_child(job, conn):
+    try:
+        conn.send(run_job(job))
+    except BaseException:      # noqa
+        conn.send({'job': '%s.%s%s' % (job[0], job[1], job[2] or ''), 'results': [], 'units': [], 'paths': 0, 'error': traceback.format_exc(), 'undecided': None, 'assumptions': []})
+    finally:
+        conn.close()
+
+
+def run_jobs(jobs, procs=None, budget_s=None):
+    """every unit job runs in a process of its own, at most `procs` at a time, each under a wall-clock budget: a solver call that does not return
+    (the string / sequence theories can diverge on changed code) makes THAT unit undecided -- never a violation, never a hung check"""
+    procs = procs or min(14, max(1, (os.cpu_count() or 2) - 2)); budget_s = budget_s or JOB_BUDGET_S
+    if len(jobs) == 1 and not os.environ.get('PYVC_ALWAYS_FORK'):
+        return [run_job(j) for j in jobs] if os.environ.get('PYVC_INLINE') else _run_pool(jobs, 1, budget_s)
+    return _run_pool(jobs, procs, budget_s)
+
+
+def _run_pool(jobs, procs, budget_s):
     ctx = mp.get_context('fork')
-    with ctx.Pool(min(procs, len(jobs))) as pool:
-        return pool.map(run_job, jobs, chunksize=1)
+    results = [None] * len(jobs); pending = list(range(len(jobs))); running = {}
+    while pending or running:
+        while pending and len(running) < procs:
+            i = pending.pop(0); parent, child = ctx.Pipe(duplex=False)
+            p = ctx.Process(target=_job_child, args=(jobs[i], child)); p.daemon = True; p.start(); child.close()
+            running[i] = (p, parent, time.time())
+        done = []
+        for i, (p, conn, t0) in running.items():
+            if conn.poll(0.02):
+                try:
+                    results[i] = conn.recv()
+                except EOFError:
+                    results[i] = None
+                p.join(5); done.append(i)
+            elif not p.is_alive():
+                p.join(1); done.append(i)
+            elif time.time() - t0 > budget_s:
+                p.terminate(); p.join(5)
+                if p.is_alive():
+                    p.kill(); p.join(5)
+                j = jobs[i]
+                results[i] = {'job': '%s.%s%s' % (j[0], j[1], j[2] or ''), 'results': [], 'units': [], 'paths': 0, 'error': None, 'assumptions': [], 'wall': round(time.time() - t0, 1),
+                              'undecided': 'unit exceeded its time budget of %d s (a solver call did not return): undecided, not a violation' % budget_s}
+                done.append(i)
+        for i in done:
+            p, conn, t0 = running.pop(i); conn.close()
+            if results[i] is None:
+                j = jobs[i]
+                results[i] = {'job': '%s.%s%s' % (j[0], j[1], j[2] or ''), 'results': [], 'units': [], 'paths': 0, 'undecided': None, 'assumptions': [],
+                              'error': 'unit job process ended without a result (exit code %s)' % p.exitcode}
+        if not done:
+            time.sleep(0.05)
+    return results
